@@ -414,7 +414,11 @@ func genM1(r *rand.Rand, p Profile, id string) Case {
 				continue
 			}
 			v := t.versions[r.Intn(len(t.versions))]
-			ops = append(ops, []string{"lvfo", i64(v)})
+			lvfoTok := "lvfo"
+			if p.WPrune {
+				lvfoTok = "wlvfo"
+			}
+			ops = append(ops, []string{lvfoTok, i64(v)})
 			var keep []int64
 			for _, w := range t.versions {
 				if w <= v {
